@@ -1956,11 +1956,13 @@ def check_C07(tier, seed):
     names = ['left_rec', 'right_rec_empty', 'paren', 'expr_strat', 'lr1_not_lalr', 'reduce_la', 'expr_amb', 'mutual_rec', 'nullable_prefix', 'nested_nullable', 'nullable_mid']
     if tier != 'quick':
         names += ['deep_unit_nullable', 'left_rec_empty', 'closure_memo', 'first_stride', 'unit_chain', 'paren_list', 'opt_tail', 'two_lists', 'expr_unary', 'dangling_else', 'first_leftrec_chain', 'nullable_cycle2', 'll_pal', 'expr_rassoc']
+    # (error recovery during constant evaluation: the same verdict as at run time, and still a constant expression)
+    names += ['err_stmt'] if tier == 'quick' else ['err_stmt', 'err_suite', 'err_block']
     grams = [cat[n] for n in names if n in cat]
     entries, cases_by = [], {}
     for g in grams:
         # every third rule has no functor: its left-side value is constructed from the right-side values, in their order
-        e = pipeline.gen_entry(g, gid=g.name + '@ct', dflt=[i for i in range(len(g.rules)) if i % 3 == 2])
+        e = pipeline.gen_entry(g, gid=g.name + '@ct', dflt=[i for i in range(len(g.rules)) if i % 3 == 2 and not g.has_error()])
         entries.append(e)
         alpha = [ord(t) for t in g.ts]
         ins = []
@@ -2044,7 +2046,7 @@ def check_C07(tier, seed):
             if hasattr(e, 'lexterms'):
                 val = gen_ct.hash_lex_tree(v['nodes'], v['root'], list(b)) if ok else 0
             else:
-                val = gen_ct.hash_tree(v['nodes'], v['root'], e.tla['tbytes']) if ok else 0
+                val = (None if e.g.has_error() else gen_ct.hash_tree(v['nodes'], v['root'], e.tla['tbytes'])) if ok else 0
             nempty = sum(1 for (_, r, _) in e.g.rules if not r)
             cases.append({'bytes': list(b), 'ws': ws, 'nl': nl, 'ok': ok, 'val': val, 'maxstack': v['maxstack'], 'cap': len(b) + 1 + nempty + 1})
         src = os.path.join(work, e.g.name + '_ct.cpp')
@@ -2107,6 +2109,8 @@ def check_C07(tier, seed):
                 nrt += 1
                 g2 = got.get(i, {}).get(how)
                 exp = (1, c['val']) if c['ok'] else (0, 0)
+                if c['val'] is None and g2 is not None:
+                    g2, exp = (g2[0], None), (exp[0], None)       # (recovery grammars: acceptance only)
                 if g2 != exp:
                     over = c['maxstack'] > c['cap'] and how.startswith('cstring')
                     if over and k2:
@@ -2250,6 +2254,9 @@ def check_C12(tier, seed):
             out.violations.append({'summary': {'terms': lxl.set_text(ljobs[int(lid[1:])][1]), 'class': 'lexer automaton larger than the sum of the term sizes', 'detail': d['why']}, 'kind': 'lx', 'terms': ljobs[int(lid[1:])][1]})
     # real parsers over term sets: the lexer is built into a table of exactly that capacity (bounds hook)
     lex_entries = [pipeline.lex_entry('cap%d' % i, ts) for i, ts in enumerate(lxl.FAMILIES[:6 if tier == 'quick' else 17]) if pipeline.unique_term_names(ts)]
+    # ... and lexers some of whose states send MOST byte values to one successor ('.', a negated set): the diagnostics list such
+    # runs through buffers of their own
+    lex_entries += [pipeline.lex_entry('capwide0', [lxl.R('.'), lxl.C('x')]), pipeline.lex_entry('capwide1', [lxl.R('"[^"]*"'), lxl.R('[\\x00-\\xff]x')])]
     # ---- (c) default LR caps, (d) custom limits around the need
     names = ['expr_strat', 'paren_list', 'closure_memo', 'lr1_not_lalr', 'nullable_prefix'] + ([] if tier == 'quick' else ['first_cycle', 'll_pal', 'two_lists', 'expr_amb', 'unit_chain'])
     base = [pipeline.gen_entry(cat[n], gid=n + '@deflim') for n in names]
@@ -2276,6 +2283,9 @@ def check_C12(tier, seed):
     for gid, d in res0.caps.items():
         out.violations.append({'summary': {'grammar': gid, 'class': 'capacity: ' + str(d['why'][0]), 'detail': d['why']}, 'kind': 'caps', 'gid': gid})
     need_big = res0.capsok.get(ebig_lim.gid)
+    for e in base + all_default + lex_entries:
+        if getattr(e, 'diag_threw', None):
+            out.violations.append({'summary': {'grammar': e.gid, 'class': 'capacity: write_diag_str ran past one of its own fixed buffers (bounds hook)', 'hook': e.diag_threw}, 'kind': 'caps', 'gid': e.gid})
     threw_all = dict(res0.construct_threw)
     if ebig_def.construct_threw is not None:
         threw_all[ebig_def.gid] = ebig_def.construct_threw
@@ -2519,6 +2529,9 @@ def check_C14(tier, seed):
         if len(entries) % 2:
             # the same grammar with a value type whose move operations are not declared noexcept: still moved, never copied
             entries.append(pipeline.gen_entry(g, gid=n + '@valmt', defines=('VH_MOVE_MAY_THROW',)))
+            # ... and with a value type that has a move constructor but NO move assignment (assigning to it copies): the library
+            # hands values on by construction, never by assigning over a used slot
+            entries.append(pipeline.gen_entry(g, gid=n + '@valnma', defines=('VH_NO_MOVE_ASSIGN',)))
         if not g.has_error():
             entries.append(pipeline.gen_entry(g, gid=n + '@valdflt', dflt=sorted(range(0, len(g.rules), 2))))
             # (the odd rules without a functor: in most catalogue grammars these are the UNIT rules, whose value is handed on)
@@ -2587,10 +2600,10 @@ def check_C14(tier, seed):
         tout = os.path.join(work, 'throwing.ndjson')
         tr2 = subprocess.run([texe, tout], capture_output=True, text=True, timeout=120)
         titems = vlib.read_ndjson_lenient(tout)
-        expect_throw = {it['id']: ('!' in it['id']) for it in titems}
-        if tr2.returncode != 0 or len(titems) < 11:
+        expect_throw = {it['id']: ('!' in it['id'].split(':')[-1] if it['id'].startswith(('after:', 'base:')) else '!' in it['id']) for it in titems}
+        if tr2.returncode != 0 or len(titems) < 20:
             out.violations.append({'summary': {'class': 'an exception thrown by a rule functor does not reach the caller of parse()' if tr2.returncode == 70 else 'the throwing-functor run died',
-                                               'exit': tr2.returncode, 'input': None if len(titems) >= 11 else 'the one after ' + (titems[-1]['id'] if titems else '(none)'), 'stderr': tr2.stderr[-300:]}, 'kind': 'moveonly'})
+                                               'exit': tr2.returncode, 'input': None if len(titems) >= 20 else 'the one after ' + (titems[-1]['id'] if titems else '(none)'), 'stderr': tr2.stderr[-300:]}, 'kind': 'moveonly'})
         for it in titems:
             if it['threw'] != expect_throw[it['id']]:
                 out.violations.append({'summary': {'class': 'a functor threw and parse() %s' % ('returned normally' if not it['threw'] else 'threw although no functor did'), 'run': it['id']}, 'kind': 'moveonly'})
@@ -2731,6 +2744,24 @@ def check_C15(tier, seed):
     entries.append(eclex)
     for label in ('plain', 'tsan'):
         run_threads(label + ' (custom lexer)', cbins['c15clex_' + label], [eclex], False)
+    # ---- a call AFTER a call that was abandoned by an exception (a functor threw): nothing of the abandoned call is left behind
+    texe = os.path.join(work, 'throwing')
+    tr_ = subprocess.run(['g++', '-std=c++17', '-O1', '-I' + os.path.join(vlib.REPO, 'include'), os.path.join(vlib.HARNESS, 'throwing.cpp'), '-o', texe], capture_output=True, text=True, timeout=600)
+    nafter = 0
+    if tr_.returncode == 0:
+        tout = os.path.join(work, 'throwing.ndjson')
+        tr2 = subprocess.run([texe, tout], capture_output=True, text=True, timeout=120)
+        titems = vlib.read_ndjson_lenient(tout)
+        shape = lambda it: (it['ok'], it['threw'], [ev[0] for ev in it['events']])
+        base_ = [it for it in titems if it['id'].startswith('base:')]
+        for it in titems:
+            if it['id'].startswith('after:') and base_:
+                nafter += 1
+                if shape(it) != shape(base_[0]):
+                    out.violations.append({'summary': {'class': 'a call after a call that an exception abandoned differs from the same call in isolation', 'abandoned_call_text': it['id'].split(':')[1],
+                                                       'call_text': 'x,x,(x)', 'in_isolation': {'ok': base_[0]['ok'], 'events': len(base_[0]['events'])}, 'after': {'ok': it['ok'], 'threw': it['threw'], 'events': len(it['events'])}}, 'kind': 'threads'})
+        if tr2.returncode != 0 or not base_ or nafter < 4:
+            out.violations.append({'summary': {'class': 'calls after an abandoned call: the process died', 'exit': tr2.returncode, 'stderr': tr2.stderr[-300:]}, 'kind': 'threads'})
     # every per-thread trace must be a behaviour of the SEQUENTIAL specification, with the verdict/tree of the isolated call
     live = [e for e in entries if e.dump is not None and e.traces]
     tasks = []
